@@ -6,10 +6,10 @@ PROP = 'C12'
 
 def run(tier, seed):
     return netcheck.run_net(PROP, tier, seed,
-        profiles=[('idl', 150, 1500, 40), ('rdl', 150, 1500, 40)],
+        profiles=[('idl', 150, 1500, 40), ('rdl', 150, 1500, 40), ('dlrel', 200, 2000, 25)],
         rule='seeded requests of the five relations between expressions c*x + k and c*(x - y) + k (c in {1,-1,2,-2}, both '
              'variable orders, constants on either side) and bounds / distance / equates queries, on networks in random '
-             'consistent states; in every model the returned literal is true only if the asserted difference constraints '
+             'consistent states (profile dlrel: constraints asserted and propagated at root level first, then 8-14 relation requests / queries, equalities preferred); in every model the returned literal is true only if the asserted difference constraints '
              'entail the relation and false only if they entail its negation (Fourier-Motzkin; integer tightening for IDL); '
              'query answers equal the values computed from the logged variable-level matrix, and that matrix is the exact closure of the relations whose literal is true and of the negations of those whose literal is false (a literal made false enforces the negation of its relation); distinct_nontrivial = distinct '
              'executions with a relation request or an expression query',
